@@ -51,6 +51,7 @@ type Report struct {
 
 	mu       sync.Mutex
 	distinct map[string]bool
+	perKey   map[string]int
 }
 
 type Ctx struct {
@@ -87,7 +88,7 @@ func (r *Report) Case(key string, nontrivial bool) {
 
 func (r *Report) Mismatch(stage, input, model, impl string) {
 	r.mu.Lock()
-	if len(r.Mismatches) < 50 {
+	if r.Counters["mismatch:"+stage] < 20 && len(r.Mismatches) < 400 { // bounded per stage, so that no stage hides another
 		r.Mismatches = append(r.Mismatches, Mismatch{stage, input, model, impl})
 	}
 	r.Counters["mismatch:"+stage]++
@@ -96,7 +97,13 @@ func (r *Report) Mismatch(stage, input, model, impl string) {
 
 func (r *Report) Violate(v Violation) {
 	r.mu.Lock()
-	if len(r.Violations) < 200 {
+	// keep a bounded number of instances PER KEY: the many instances of one (possibly known) finding must never
+	// crowd out a violation with another key
+	if r.perKey == nil {
+		r.perKey = map[string]int{}
+	}
+	r.perKey[v.Key]++
+	if r.perKey[v.Key] <= 12 && len(r.Violations) < 4000 {
 		r.Violations = append(r.Violations, v)
 	}
 	r.Counters["violation"]++
